@@ -1,0 +1,124 @@
+//go:build verif
+// +build verif
+
+package blockchain
+
+import (
+	"sort"
+	"time"
+
+	"github.com/dappledger/AnnChain/gemmill/types"
+)
+
+// Read-only projections and deterministic test knobs for the model-based fast-sync check in
+// /verif (build tag "verif").  Nothing here is compiled into a production binary and nothing
+// changes the behaviour of existing code.
+
+// VerifRequester is the visible part of one bpRequester.
+type VerifRequester struct {
+	Height   int64
+	PeerID   string
+	HasBlock bool
+	Hash     []byte // block.Hash() of the block held (nil if none / incomplete block)
+}
+
+// VerifPeer is the visible part of one bpPeer.
+type VerifPeer struct {
+	Height     int64
+	NumPending int32
+	DidTimeout bool
+}
+
+// VerifPoolView is a snapshot of the pool taken under its lock.
+type VerifPoolView struct {
+	Running    bool
+	Height     int64
+	NumPending int32
+	Requesters []VerifRequester // ascending height, only heights <= maxHeight
+	Peers      map[string]VerifPeer
+}
+
+// VerifPool returns the reactor's block pool.
+func (bcR *BlockchainReactor) VerifPool() *BlockPool { return bcR.pool }
+
+// VerifFastSync reports whether the reactor was constructed in fast-sync mode.
+func (bcR *BlockchainReactor) VerifFastSync() bool { return bcR.fastSync }
+
+// VerifView returns the pool state restricted to requesters with height <= maxHeight.
+func (pool *BlockPool) VerifView(maxHeight int64) VerifPoolView {
+	pool.mtx.Lock()
+	defer pool.mtx.Unlock()
+	v := VerifPoolView{Running: pool.IsRunning(), Height: pool.height, NumPending: pool.numPending, Peers: map[string]VerifPeer{}}
+	for h, r := range pool.requesters {
+		if h > maxHeight {
+			continue
+		}
+		r.mtx.Lock()
+		q := VerifRequester{Height: h, PeerID: r.peerID, HasBlock: r.block != nil}
+		if r.block != nil {
+			q.Hash = r.block.Hash()
+		}
+		r.mtx.Unlock()
+		v.Requesters = append(v.Requesters, q)
+	}
+	sort.Slice(v.Requesters, func(i, j int) bool { return v.Requesters[i].Height < v.Requesters[j].Height })
+	for id, p := range pool.peers {
+		v.Peers[id] = VerifPeer{Height: p.height, NumPending: p.numPending, DidTimeout: p.didTimeout}
+	}
+	return v
+}
+
+// VerifFirePeerTimeout runs the callback the per-peer response timer would run when it expires
+// (bpPeer.onTimeout), so that a behaviour containing a peer timeout does not have to wait for it.
+// It reports whether the peer is known to the pool.
+func (pool *BlockPool) VerifFirePeerTimeout(peerID string) bool {
+	pool.mtx.Lock()
+	p := pool.peers[peerID]
+	pool.mtx.Unlock()
+	if p == nil {
+		return false
+	}
+	p.onTimeout()
+	return true
+}
+
+// VerifSetPeerTimeoutSeconds overrides the per-peer response timeout (production: 15) and
+// returns the previous value.
+func VerifSetPeerTimeoutSeconds(n int) int {
+	old := int(peerTimeoutSeconds)
+	peerTimeoutSeconds = time.Duration(n)
+	return old
+}
+
+// Constructors for the (unexported) wire messages of the blockchain channel, for scripted peers.
+func VerifBlockRequest(h int64) interface{} {
+	return struct{ BlockchainMessage }{&bcBlockRequestMessage{h}}
+}
+func VerifBlockResponse(b *types.Block) interface{} {
+	return struct{ BlockchainMessage }{&bcBlockResponseMessage{Block: b}}
+}
+func VerifStatusRequest(h int64) interface{} {
+	return struct{ BlockchainMessage }{&bcStatusRequestMessage{h}}
+}
+func VerifStatusResponse(h int64) interface{} {
+	return struct{ BlockchainMessage }{&bcStatusResponseMessage{h}}
+}
+
+// VerifDecode classifies a message received on the blockchain channel.
+func VerifDecode(bz []byte) (kind string, height int64, block *types.Block, err error) {
+	_, msg, err := DecodeMessage(bz)
+	if err != nil {
+		return "", 0, nil, err
+	}
+	switch m := msg.(type) {
+	case *bcBlockRequestMessage:
+		return "blockRequest", m.Height, nil, nil
+	case *bcBlockResponseMessage:
+		return "blockResponse", 0, m.Block, nil
+	case *bcStatusRequestMessage:
+		return "statusRequest", m.Height, nil, nil
+	case *bcStatusResponseMessage:
+		return "statusResponse", m.Height, nil, nil
+	}
+	return "unknown", 0, nil, nil
+}
